@@ -94,22 +94,13 @@ def byte_search(ctx, ops, verdict_classes):
     ctx.traces += n1 + n2
     ctx.nontrivial += nt1 + nt2
     v, s = (2, 3) if ctx.quick else (4, 6)
-    rep, rc, err = C.run_harness(ctx, binp, ["replay-generic", "--in", gvec, "--variants", v, "--stretches", s, "--threads", C.NCPU], "generic")
-    if rep is None:
-        raise ToolError("replayer failed rc=%s: %s" % (rc, err[-2000:]))
-    C.absorb_report(ctx, rep, verdict_classes, "generic")
-    rep, rc, err = C.run_harness(ctx, binp, ["replay-generic", "--in", svec, "--no-scaled", "--variants", v, "--stretches", s, "--threads", C.NCPU], "swar")
-    if rep is None:
-        raise ToolError("replayer failed rc=%s: %s" % (rc, err[-2000:]))
-    C.absorb_report(ctx, rep, verdict_classes, "swar")
+    replay_cmd(ctx, binp, "replay-generic", gvec, "generic", verdict_classes, extra=["--variants", v, "--stretches", s])
+    replay_cmd(ctx, binp, "replay-generic", svec, "swar", verdict_classes, extra=["--no-scaled", "--variants", v, "--stretches", s])
     # the dispatcher's other branches: same vectors, top-level API only
     for force in ("sse2", "fallback"):
         for tag, vec in (("generic", gvec), ("swar", svec)):
-            rep, rc, err = C.run_harness(ctx, binp, ["replay-generic", "--in", vec, "--no-scaled", "--only-top", "--variants", 1, "--stretches", 3, "--threads", C.NCPU],
-                                         "%s_%s" % (tag, force), env_extra={"MEMCHR_VERIF_FORCE": force})
-            if rep is None:
-                raise ToolError("replayer failed rc=%s: %s" % (rc, err[-2000:]))
-            C.absorb_report(ctx, rep, verdict_classes, "%s@%s" % (tag, force))
+            replay_cmd(ctx, binp, "replay-generic", vec, "%s@%s" % (tag, force), verdict_classes,
+                       extra=["--no-scaled", "--only-top", "--variants", 1, "--stretches", 3], env={"MEMCHR_VERIF_FORCE": force})
     # routing of the arch wrappers / dispatcher (ArchMemchr F-spec): conformance of the vector widths used at every length
     ar = run_shards(ctx, [("arch", "MC_ArchMemchr", dict(MaxLen=100 if ctx.quick else 200, Emit=True), ["EmitReplay"], 2)])
     for force in ("avx2", "sse2", "fallback"):
@@ -146,16 +137,9 @@ def iter_part(ctx, verdict_classes):
     ctx.traces += n
     ctx.nontrivial += n  # every behaviour is a distinct (match set, call order); all but the empty match sets are non-trivial
     v, s = (2, 3) if ctx.quick else (3, 5)
-    rep, rc, err = C.run_harness(ctx, binp, ["replay-iter", "--in", vec, "--variants", v, "--stretches", s, "--threads", C.NCPU], "iter")
-    if rep is None:
-        raise ToolError("replayer failed rc=%s: %s" % (rc, err[-2000:]))
-    C.absorb_report(ctx, rep, verdict_classes, "iter")
+    replay_cmd(ctx, binp, "replay-iter", vec, "iter", verdict_classes, extra=["--variants", v, "--stretches", s])
     for force in ("sse2", "fallback"):
-        rep, rc, err = C.run_harness(ctx, binp, ["replay-iter", "--in", vec, "--only-top", "--variants", 1, "--stretches", 3, "--threads", C.NCPU],
-                                     "iter_%s" % force, env_extra={"MEMCHR_VERIF_FORCE": force})
-        if rep is None:
-            raise ToolError("replayer failed rc=%s: %s" % (rc, err[-2000:]))
-        C.absorb_report(ctx, rep, verdict_classes, "iter@%s" % force)
+        replay_cmd(ctx, binp, "replay-iter", vec, "iter@%s" % force, verdict_classes, extra=["--only-top", "--variants", 1, "--stretches", 3], env={"MEMCHR_VERIF_FORCE": force})
     wb = simd128_bin(ctx)
     if wb:
         replay_cmd(ctx, wb, "replay-iter", vec, "iter@simd128", verdict_classes, extra=["--variants", 1, "--stretches", 2])
@@ -223,7 +207,10 @@ def harness_died(ctx, binp, args, tag, rc, err, classes, env=None):
     err = err or ""
     locs = re.findall(r"panicked at ([^\s:]+):(\d+)", err)
     root = os.path.abspath(C.REPO) + os.sep
-    in_crate = [l for l in locs if os.path.abspath(l[0]).startswith(root)]
+    copy = os.path.join(os.path.abspath(C.WORK), "simd128", "crate") + os.sep     # the cfg-rewritten copy of the crate (simd128 vehicle)
+    in_crate = [l for l in locs if os.path.abspath(l[0]).startswith(root) or os.path.abspath(l[0]).startswith(copy)]
+    if in_crate and not os.path.abspath(in_crate[0][0]).startswith(root):
+        root = copy
     sig = SIGNAL_RC.get(rc)
     if rc == 101 and in_crate:
         kinds = {"panic"}
